@@ -318,3 +318,13 @@ _patch("C16", "technique", "+ generated start-wrapper parameters (translator)",
        "+ life-cycle specification run against the real service object + generated start-wrapper parameters (translator)")
 _patch("C18", "text", "Tie:", "A file that disappears for a while and comes back unchanged leaves the table in sync through every lookup made meanwhile "
        "(C18_away_and_back; the variant that empties the table but keeps the stamps is refuted by a three-event history). Tie:")
+_patch("C20", "text", "Tie:", "What is left on disk: every successful Restore ends with the restart and writes nothing after it (C20_restore_disk: loaded = "
+       "what is on disk), and when the restart at the end of setupDNSMasq fails on edgeos / ubios / firewalla the Restore of the following stop still "
+       "removes the drop-in and restarts (C20_failed_restart_then_restore; the variant that skips Restore unless Setup succeeded is refuted). Tie (the shim "
+       "can make the next restart command fail once; such histories are judged by the specification only, incl. the view of the files on disk):")
+_patch("C05", "text", "the extracted boolean spec is also evaluated on the implementation's own replies.",
+       "the extracted boolean spec is also evaluated on the implementation's own replies. Mode tcpstall: hundreds of pipelined queries with 40-65 kB "
+       "answers on one TCP connection whose client stops reading for several request timeouts and then reads on - only whole replies, each delimited "
+       "by its prefix, may arrive.")
+_patch("C13", "text", "Tie:", "Tie (besides the engines below, the concurrent batches of mode conc: peer address, hardware address and local address of a query are "
+       "sampled when the upstream is called and when it is done - they are the request's own and must not change while other requests are parsed):")
